@@ -69,23 +69,77 @@ def run(*, tier, seed, jobs, progress, opts, prop=PROP, oracle=ORACLE,
         cov['samples'] += [[f"s{e['s']}:{e['name']}" for e in smp]
                            for smp in c['samples'][:3]]
         violations += res.violations
+    # E7: the maildir backend under real concurrency -- two sessions as two
+    # server instances on one maildir, every schedule of their filesystem
+    # calls; the shadow clients apply what each session is sent (C01's
+    # transcript rules) and are compared with the mailbox after one NOOP (C02)
+    if 'depth' not in opts:
+        import multiprocessing as mp
+        from . import c02mt
+        from ..worlds import scratch_parent
+        keep = (lambda r: r.startswith('shadow.') or r == 'no-completion') \
+            if oracle == 'c01' else (lambda r: r.startswith('c02.'))
+        mtc = {'pairs': 0, 'executions': 0, 'distinct_outcomes': 0,
+               'by_preemptions': {}, 'max_decision_points': 0}
+        with scratch_parent(), \
+                mp.get_context('fork').Pool(jobs or 16) as pool:
+            for st in pool.imap_unordered(c02mt.task, c02mt.tasks(tier),
+                                          chunksize=1):
+                if 'error' in st:
+                    raise RuntimeError(f'E7 harness error: {st}')
+                mtc['pairs'] += 1
+                mtc['executions'] += st['executions']
+                mtc['distinct_outcomes'] += st['outcomes']
+                mtc['max_decision_points'] = max(
+                    mtc['max_decision_points'], st['max_points'])
+                for k, n in st['by_preemptions'].items():
+                    mtc['by_preemptions'][str(k)] = \
+                        mtc['by_preemptions'].get(str(k), 0) + n
+                violations += [v for v in st['violations']
+                               if keep(v['rule'])]
+        cov['maildir_threads'] = mtc
+        cov['transitions'] += mtc['executions']
+        cov['traces_validated_against_impl'] += mtc['executions']
     cov['exhaustive'] = True
-    cov['rule'] = rule or (
+    cov['rule'] = (rule or (
         'all interleavings of whole commands of N sessions on one dict '
         'mailbox up to the depth bound (whole commands are the only '
         'asyncio-realizable granularity: DESIGN F2/F3), IDLE/DONE as '
         'separate events; deduplicated by canonical glass-box state '
-        'including each session\'s shadow client')
+        'including each session\'s shadow client')) + (
+        '; E7 (maildir): two sessions with INBOX selected, each running one '
+        'command of {APPEND, STORE own/same message, EXPUNGE, MOVE, COPY, '
+        'FETCH BODY[], NOOP, ...} as two real server instances on one '
+        'maildir, every schedule of their filesystem calls with <= 1 '
+        'preemption (thorough: both layouts, core pairs 2); then one NOOP '
+        'each')
     return finish(prop, tier=tier, seed=seed, level='model_checking',
                   coverage=cov, violations=violations, t0=t0,
                   assumptions=assumptions or [
                       'dict backend, asyncio subsystem; <= 3 sessions',
                       'programs longer than the depth bound not explored',
-                      'maildir/threading interleavings are not in this run'])
+                      'E7: maildir thread/process interleavings at '
+                      'filesystem-call granularity, one command per session'])
+
+
+def replay_mt(r):
+    from . import c02mt
+    from ..worlds import scratch_parent
+    from . import mtmaildir as mt
+    with scratch_parent():
+        ex, info = c02mt.run_schedule(r['layout'], tuple(r['names']),
+                                      r['prefix'])
+        viols = c02mt.judge(r['layout'], tuple(r['names']), ex, info)
+        mt.drop_templates()
+    for v in viols:
+        print('VIOLATION-REPLAYED', v['rule'], v['site'], v['msg'])
+    return 1 if viols else 0
 
 
 def replay(rec):
     r = rec['replay']
+    if r.get('mt02'):
+        return replay_mt(r)
     p = dict(r['params'])
     p.pop('oracle', None)
     m = SeqModel(oracle=ORACLE, **p)
